@@ -19,7 +19,7 @@ ASSUMPTIONS = [
     "E3/E4: transport.close() is idempotent, afterwards is_closing() is true, no datagram_received call starts and the socket is "
     "released once the loop has cycled; is_closing() is false for an open transport",
     "the event loop cycles between two bridge calls of a history",
-    "E7: a callable handed to loop.call_soon / call_later runs in a later loop iteration, possibly after stop() (so delivery must be "
+    "E8: a callable handed to loop.call_soon / call_later runs in a later loop iteration, possibly after stop() (so delivery must be "
     "synchronous inside datagram_received for 'no callback after stop' to follow from E3)",
     "the induction over the port list that combines the any_ports_* step lemmas into 'for any number of ports' is a meta-argument "
     "(DESIGN.md 9.6), not machine-checked",
